@@ -7,6 +7,7 @@ import (
 	"encoding/json"
 	"fmt"
 	"os"
+	"regexp"
 	"runtime"
 	"runtime/debug"
 	"sort"
@@ -86,6 +87,7 @@ type Result struct {
 	Fired      map[string]int   `json:"fired,omitempty"`
 	Probes     map[string]int   `json:"probes,omitempty"`
 	States     []uint64         `json:"states,omitempty"`
+	Log        []string         `json:"-"`
 	Nontrivial bool             `json:"nontrivial"`
 	Trace      []int            `json:"trace,omitempty"`
 	Tail       []string         `json:"tail,omitempty"`
@@ -123,6 +125,43 @@ func RunSeed(base uint64, i int) uint64 { return core.Mix(base, uint64(i)+1) }
 
 var gcCounter int
 
+// KeepLog makes Execute keep the complete event log in Result.Log (not serialised).
+var KeepLog bool
+
+// FirstDiff returns the first pair of differing lines of two event logs.
+func FirstDiff(a, b []string) (int, string, string) {
+	for i := 0; i < len(a) || i < len(b); i++ {
+		var x, y string
+		if i < len(a) {
+			x = a[i]
+		}
+		if i < len(b) {
+			y = b[i]
+		}
+		if x != y {
+			return i, x, y
+		}
+	}
+	return -1, "", ""
+}
+
+var (
+	tieRefreshRe = regexp.MustCompile(`grant [RW] liteapi/pool\.\(\*ConnPool\)\.Run @liteapi/pool\.\(\*ConnPool\)\.updateBest`)
+	tieNotifyRe  = regexp.MustCompile(`grant [RW] liteapi/pool\.\(\*ConnPool\)\.Run @liteapi/pool\.\(\*ConnPool\)\.notifySubscribers`)
+)
+
+// IsSelectTie tells whether two executions of one plan first differ in what pool.ConnPool.Run does next: refresh
+// (its ticker case) or notify (its update-channel case). When both cases of that select are ready Go picks one
+// with a runtime-internal random number that cannot be seeded: the one choice this simulator does not own.
+// x and y are the first differing lines of the complete logs (a step line or the line listing a step's options):
+// the coin shows as Run asking for the lock of updateBest in one execution and not in the other (or of
+// notifySubscribers; a reader that queues behind a waiting writer is not among the options).
+func IsSelectTie(x, y string) bool {
+	rx, nx := tieRefreshRe.MatchString(x), tieNotifyRe.MatchString(x)
+	ry, ny := tieRefreshRe.MatchString(y), tieNotifyRe.MatchString(y)
+	return rx != ry || nx != ny
+}
+
 // Execute runs one plan to completion. The trace is always recorded in the result.
 func Execute(t *testing.T, p *Plan, keepTrace bool) (res *Result) {
 	e := Engines[p.Property]
@@ -152,6 +191,7 @@ func Execute(t *testing.T, p *Plan, keepTrace bool) (res *Result) {
 		}()
 		synctest.Test(t, func(t *testing.T) {
 			w := core.NewWorld(t, p.Seed, p.Trace, p.Stalls, !p.Free)
+			w.Log.KeepAll = KeepLog
 			w.Logf("plan %s", planDigest(p))
 			func() {
 				defer func() {
@@ -164,6 +204,7 @@ func Execute(t *testing.T, p *Plan, keepTrace bool) (res *Result) {
 			}()
 			w.Shutdown()
 			res.Digest = w.Log.Digest()
+			res.Log = w.Log.All
 			res.Steps = w.Steps
 			res.SimUs = w.SimEnd.Microseconds()
 			res.Violations = w.Violations
